@@ -638,6 +638,7 @@ class Evaluator(object):
             for k_, e in enumerate(elems):
                 self.assign(st.target, e, cur, st)
                 ctx = _LoopCtx("U%d_%d" % (id(st) % 100000, k_))
+                ctx.unrolled = True
                 self.loopstack.append(ctx)
                 n_before = len(self.loopstack)
                 out = self.run_keep_pc(st.body, cur)
@@ -882,7 +883,7 @@ class Evaluator(object):
                         cont = self.ev(v.func.value, env)
                         args = tuple(self.ev(a, env) if not isinstance(a, ast.Starred) else tm.mk("star", self.ev(a.value, env)) for a in v.args)
                     key = tm.none() if isinstance(v.func.value, ast.Name) else tm.mk("at", cont, tm.none())
-                    if v.func.attr == "append" and isinstance(v.func.value, ast.Name) and env[root].op == "list" and len(args) == 1 and args[0].op != "star" and not self.loopstack:
+                    if v.func.attr == "append" and isinstance(v.func.value, ast.Name) and env[root].op == "list" and len(args) == 1 and args[0].op != "star" and not [c_ for c_ in self.loopstack if not getattr(c_, "unrolled", False)]:
                         # xs = [a]; xs.append(b) in straight-line code is xs = [a, b]
                         env[root] = tm.lst(list(env[root].a) + [args[0]])
                     else:
